@@ -52,7 +52,8 @@ SCEN = {
     "deadline-set-zero-set": "ScSetZeroSet", "deadline-set-past": "ScSetPast", "deadline-cleared": "ScCleared",
 }
 CALLER = {"Read": "Reader", "Write": "Writer", "Accept": "Accepter"}
-CODE = {"blocked": 0, "data": 1, "written": 2, "accepted": 3, "timeout": 4, "timeout-early": 5, "closed": 6, "sockerr": 7}
+CODE = {"blocked": 0, "data": 1, "written": 2, "accepted": 3, "timeout": 4, "timeout-early": 5, "closed": 6, "sockerr": 7,
+        "blocked-data": 9}
 
 
 def translate(ctx):
@@ -71,11 +72,18 @@ def compare_outcomes(ctx, rep):
     rows, seen = [], {}
     for name, obs in sorted(outcomes.items()):
         parts = name.split("/")
-        if len(parts) < 3 or parts[1] not in SCEN or parts[0] not in CALLER or obs is None:
+        if len(parts) < 3 or parts[0] not in CALLER or obs is None:
+            continue
+        if parts[1].startswith("multi-"):
+            # multi-<variant>-b<bufs>-m<msgs>: ONE datagram with that many messages
+            scen = "(ScMulti %d)" % len(parts[1].rsplit("-m", 1)[1].split("."))
+        elif parts[1] in SCEN:
+            scen = SCEN[parts[1]]
+        else:
             continue
         n = int(parts[2].split("=")[1])
         codes = sorted(CODE.get(c, 8) for c in obs)
-        k = (CALLER[parts[0]], SCEN[parts[1]], n, tuple(codes))
+        k = (CALLER[parts[0]], scen, n, tuple(codes))
         seen.setdefault(k, []).append(name)
     if not seen:
         return 0, []
